@@ -89,14 +89,15 @@ prop('C07', ['P1', 'P2cxx', 'P2py', 'P3', 'P4', 'W1', 'H3', 'F12', 'F13', 'K3', 
      'each prefix leaf once per leaf of the matching subtree (F13).',
      ['exactness over all pairs', 'offset arithmetic of the re-ordering branch'])
 
-prop('C08', ['I3', 'M5', 'M5b', 'M6', 'F9', 'F12', 'T6', 'K1', 'K3', 'M7', 'M1'],
+prop('C08', ['I3', 'M5', 'M5b', 'M6', 'F9', 'F12', 'W3', 'T6', 'K1', 'K3', 'M7', 'M1'],
      'Inspection / constructors: entry(i)/child(i) range test and normalisation dominate all uses '
      'of the index (I3); every new treespec gets none_is_leaf and namespace from its source(s) and '
      'passes the sanity check before it escapes (M5, 14 creation sites); a treespec derived from '
      'two treespecs merges both namespaces (M5b); children() and child() '
      'slice with the same expressions (M6); each treespec_<kind> builds the container its name '
      'says (F9); every treespec_<method>() wrapper calls that method with its arguments in the '
-     'engine\'s order (F12); the Python predicates use the engine\'s formulas (T6); K1; the collection '
+     'engine\'s order (F12); transform applies f_leaf to leaves and f_node to nodes and accepts '
+     'only one-level replacements with the same flags (W3); the Python predicates use the engine\'s formulas (T6); K1; the collection '
      'constructor enumerates children, keys and metadata exactly like flatten (K3, M7, M1).',
      ['count identities', 'transform/compose algebra', 'repr text'])
 
